@@ -488,10 +488,16 @@ def _forms(repo, col):
             return alts(t.args[1]) + alts(t.args[2]) if t.op == "ifexp" else [t]
 
         def form(d):
+            d = idx.value_norm(d)
+            is_P = lambda P: P.op == "item" and P.name == 1 and P.args[0].op == "call" and P.args[0].name == "swc_to_jaxley"
+            # repeat(P, n) / n   or   repeat(P / n, n): each of the n compartments of a branch gets 1/n of its path length
             if d.op == "binop" and d.name == "/" and d.args[0].op == "mcall" and d.args[0].name == "repeat" and len(d.args[0].args) == 3:
                 rp = d.args[0]
                 P, n1, n2 = rp.args[1], rp.args[2], d.args[1]
-                return n1.key() == n2.key() and P.op == "item" and P.name == 1 and P.args[0].op == "call" and P.args[0].name == "swc_to_jaxley"
+                return n1.key() == n2.key() and is_P(P)
+            if d.op == "mcall" and d.name == "repeat" and len(d.args) == 3 and d.args[1].op == "binop" and d.args[1].name == "/":
+                P, n2, n1 = d.args[1].args[0], d.args[1].args[1], d.args[2]
+                return n1.key() == n2.key() and is_P(P)
             return False
         ok = all(form(d) for d in alts(got))
     col.add(R, fi, "compartment length = path length of its branch / ncomp", "DISCHARGED" if ok else ("VIOLATED" if got is not None else "UNDECIDED"),
